@@ -215,4 +215,30 @@ func init() {
 		)
 		props["C16"] = p
 	}
+
+	// ---- C10 ----
+	{
+		p := &Prop{ID: "C10", Outside: []string{
+			"real goroutine interleavings of LintFiles, GOMAXPROCS, the Go race detector: the scheduler is not SSA; what is decided is that no store instruction reachable from linting one file writes memory shared between files (package-level tables, the shared Config), which rules out races on those objects for every schedule",
+			"per-file equality of diagnostics between multi-file and single-file runs, local action / reusable workflow caches (file system, reflection-driven decoding)",
+			"paths outside the alphabet {/, a, b, .} or longer than the bound; non-clean or relative paths (filepath.Abs is modelled as the identity on absolute clean paths)",
+		}}
+		p.Quick = []HRun{
+			{Entry: "HarnessC10Echo", Args: []int64{1, 0}, Bound: "every scalar of the full skeleton replaced by 1 arbitrary byte, all package-level tables and the shared Config write-monitored", Require: []string{"linted"}},
+			{Entry: "HarnessC10Echo", Args: []int64{1, 1}, Bound: "... replaced by ${{ vars.X }} with X 1 arbitrary byte (config-variables)", Require: []string{"linted"}},
+			{Entry: "HarnessC10Echo", Args: []int64{1, 2}, Bound: "... replaced by ${{ X }}", Require: []string{"linted"}},
+			{Entry: "HarnessC10Types", Args: []int64{1}, Bound: "on.<hook>.types: [T] for each of 32 webhook events, T 1 arbitrary byte", Require: []string{"reported"}},
+			{Entry: "HarnessC10Types", Args: []int64{3}, Bound: "... T 3 arbitrary bytes", Require: []string{"reported"}},
+		}
+		for _, lens := range [][2]int64{{1, 1}, {1, 3}, {2, 2}, {2, 4}, {2, 5}, {3, 2}, {3, 3}, {3, 5}, {3, 6}, {4, 6}} {
+			p.Quick = append(p.Quick, HRun{Entry: "HarnessC10Knows", Args: []int64{lens[0], lens[1]}, Bound: "all roots / paths of these lengths over {/,a,b,.}"})
+		}
+		p.Thorough = append(append([]HRun{}, p.Quick...),
+			HRun{Entry: "HarnessC10Echo", Args: []int64{2, 0}, Bound: "2 arbitrary bytes at every scalar", Require: []string{"linted"}},
+			HRun{Entry: "HarnessC10Echo", Args: []int64{2, 1}, Bound: "${{ vars.XY }}", Require: []string{"linted"}},
+			HRun{Entry: "HarnessC10Knows", Args: []int64{4, 7}, Bound: "roots of 4, paths of 7 bytes"},
+			HRun{Entry: "HarnessC10Knows", Args: []int64{5, 7}, Bound: "roots of 5, paths of 7 bytes"},
+		)
+		props["C10"] = p
+	}
 }
